@@ -12,8 +12,11 @@ import (
 	"encoding/json"
 	"fmt"
 	"os"
+	"runtime/pprof"
 	"sort"
 	"strings"
+	"syscall"
+	"time"
 
 	"github.com/tucats/ego/internal/router"
 )
@@ -70,25 +73,27 @@ type Violation struct {
 
 // Result is the worker's output.
 type Result struct {
-	Evals        int64                 `json:"evals"`    // FindRoute calls on permuted tables
-	Requests     int64                 `json:"requests"` // (table, method, path) cases
-	Tables       int64                 `json:"tables"`
-	Probes       int64                 `json:"probes"`
-	Ambiguous    int64                 `json:"ambiguous"` // requests with >= 2 routes able to become candidates
-	MaxCand      int                   `json:"max_candidates"`
-	Panics       int64                 `json:"panics"`
-	HookCalls    int64                 `json:"hook_calls"`
-	Distinct     []string              `json:"distinct"`
-	Violations   map[string]*Violation `json:"violations"`
-	Samples      []Witness             `json:"samples"`
-	Capped       []string              `json:"capped"`
-	PerFamily    map[string]int64      `json:"per_family"`
-	RealRequests map[string]int64      `json:"real_requests"`
-	Error        string                `json:"error,omitempty"`
+	Evals          int64                 `json:"evals"`    // FindRoute calls on permuted tables
+	Requests       int64                 `json:"requests"` // (table, method, path) cases
+	Tables         int64                 `json:"tables"`
+	Probes         int64                 `json:"probes"`
+	Ambiguous      int64                 `json:"ambiguous"` // requests with >= 2 routes able to become candidates
+	MaxCand        int                   `json:"max_candidates"`
+	Panics         int64                 `json:"panics"`
+	HookCalls      int64                 `json:"hook_calls"`
+	Distinct       []string              `json:"distinct"`
+	Violations     map[string]*Violation `json:"violations"`
+	Samples        []Witness             `json:"samples"`
+	Capped         []string              `json:"capped"`
+	PerFamily      map[string]int64      `json:"per_family"`
+	RealRequests   map[string]int64      `json:"real_requests"`
+	CappedRequests map[string]int64      `json:"capped_requests"`
+	Error          string                `json:"error,omitempty"`
+	CPUSeconds     float64               `json:"cpu_s"`
 }
 
 var (
-	res      = Result{Violations: map[string]*Violation{}, PerFamily: map[string]int64{}, RealRequests: map[string]int64{}}
+	res      = Result{Violations: map[string]*Violation{}, PerFamily: map[string]int64{}, RealRequests: map[string]int64{}, CappedRequests: map[string]int64{}}
 	distinct = map[[8]byte]struct{}{}
 )
 
@@ -100,6 +105,11 @@ func fatal(f string, a ...any) {
 
 func writeResult() {
 	res.HookCalls = router.VerifC32RangeCalls
+
+	var ru syscall.Rusage
+	if syscall.Getrusage(syscall.RUSAGE_SELF, &ru) == nil {
+		res.CPUSeconds = float64(ru.Utime.Sec+ru.Stime.Sec) + float64(ru.Utime.Usec+ru.Stime.Usec)/1e6
+	}
 
 	res.Distinct = res.Distinct[:0]
 	for k := range distinct {
@@ -300,9 +310,8 @@ type request struct{ method, path string }
 //
 //	probe[i] = status of the request on the single-route table {t[i]} (the
 //	real matcher decides what "matches"); 200 = matches.
-func judge(family string, t []kind, q request, outs []outcome, orders func(i int) []string, probe []int) {
-	nm, np := normalize(q.method, q.path)
-
+//	prefix   = "" for generated tables, "server:" for the server's own table.
+func judge(prefix, family string, t []kind, q request, outs []outcome, orders func(i int) []string, probe []int) {
 	// (1) the choice does not depend on the order.
 	first := outs[0]
 	diff := -1
@@ -315,11 +324,39 @@ func judge(family string, t []kind, q request, outs []outcome, orders func(i int
 		}
 	}
 
-	tab := make([][2]string, len(t))
-	for i, k := range t {
-		tab[i] = [2]string{k.endpoint, k.method}
+	// (2) a matching route with fewer variables is preferred over a matching
+	// one with more. "Matches" = the real matcher returns the route (200)
+	// when it is the only route of the table.
+	//
+	// The catch-all "/" is left out of the comparison unless the request is for
+	// "/" itself: whether "everything" should beat a pattern that names the path
+	// is not something the statement settles, so both answers are accepted.
+	minVars := 1 << 30
+	rootPath := q.path == "/"
+
+	for j, k := range t {
+		if probe[j] == 200 && k.vars < minVars && (k.class != "root" || rootPath) {
+			minVars = k.vars
+		}
 	}
 
+	worse := false
+
+	for _, o := range outs {
+		if o.route >= 0 && probe[o.route] == 200 && t[o.route].vars > minVars {
+			worse = true
+
+			break
+		}
+	}
+
+	if diff < 0 && !worse {
+		return
+	}
+
+	// Something to report: only now build the witness.
+	_, np := normalize(q.method, q.path)
+	tab := kindsTable(t)
 	size := len(t)*1000 + len(q.path)*4 + len(q.method)
 
 	var matching []string
@@ -331,100 +368,137 @@ func judge(family string, t []kind, q request, outs []outcome, orders func(i int
 	}
 
 	if diff >= 0 {
-		seen := map[outcome]bool{}
-
-		var (
-			classes  []string
-			varCount = map[int]bool{}
-			exact    bool
-			wrongM   bool
-		)
-
-		for _, o := range outs {
-			if seen[o] {
-				continue
-			}
-
-			seen[o] = true
-			classes = append(classes, o.class(t))
-
-			if o.route >= 0 {
-				varCount[t[o.route].vars] = true
-
-				if t[o.route].endpoint == np {
-					exact = true
-				}
-
-				if t[o.route].method != router.AnyMethod && t[o.route].method != nm {
-					wrongM = true
-				}
-			} else {
-				varCount[-1] = true
-			}
-		}
-
-		sort.Strings(classes)
-
-		set := classes[:0:0]
-
-		for i, c := range classes {
-			if i == 0 || c != classes[i-1] {
-				set = append(set, c)
-			}
-		}
-
-		if len(set) == 1 {
-			set = append(set, set[0])
-		}
-
-		cell := "order:" + strings.Join(set, "|")
-		if len(varCount) == 1 {
-			cell += ":same-vars"
-		} else {
-			cell += ":diff-vars"
-		}
-
-		if exact {
-			cell += ":exact"
-		}
-
-		if wrongM {
-			cell += ":wrong-method"
-		}
-
+		cell := prefix + orderCell(t, outs, np)
 		w := Witness{Table: tab, Method: q.method, Path: q.path, Family: family,
 			OrderA: orders(0), ResultA: first.describe(t), OrderB: orders(diff), ResultB: outs[diff].describe(t), Matching: matching}
 
-		violation(cell, size, w, fmt.Sprintf("%s %s resolves to %q when the table is iterated as %v but to %q when iterated as %v",
+		violation(cell, size, w, fmt.Sprintf("%s %q resolves to %q when the routes are iterated as %v but to %q when iterated as %v",
 			q.method, q.path, first.describe(t), orders(0), outs[diff].describe(t), orders(diff)))
 	}
 
-	// (2) a matching route with fewer variables is preferred over a matching
-	// one with more. "Matches" = the real matcher returns the route (200)
-	// when it is the only route of the table.
-	done := map[int]bool{}
+	if worse {
+		done := map[int]bool{}
 
-	for i, o := range outs {
-		if o.route < 0 || done[o.route] || probe[o.route] != 200 {
-			continue
-		}
+		for i, o := range outs {
+			if o.route < 0 || done[o.route] || probe[o.route] != 200 || t[o.route].vars <= minVars {
+				continue
+			}
 
-		done[o.route] = true
-		c := t[o.route]
+			done[o.route] = true
+			c := t[o.route]
 
-		for j, k := range t {
-			if probe[j] == 200 && k.vars < c.vars {
-				cell := fmt.Sprintf("more-variables-chosen:%s%d-over-%s%d", c.class, c.vars, k.class, k.vars)
-				w := Witness{Table: tab, Method: q.method, Path: q.path, Family: family,
-					OrderA: orders(i), ResultA: o.describe(t), Matching: matching}
+			for j, k := range t {
+				if probe[j] == 200 && k.vars == minVars && (k.class != "root" || rootPath) {
+					cell := fmt.Sprintf("%smore-variables-chosen:%s-over-%s", prefix, c.class, k.class)
+					w := Witness{Table: tab, Method: q.method, Path: q.path, Family: family,
+						OrderA: orders(i), ResultA: o.describe(t), Matching: matching}
 
-				violation(cell, size, w, fmt.Sprintf("%s %s resolves to %q (%d variables) although %q (%d variables) also matches",
-					q.method, q.path, c, c.vars, k, k.vars))
+					violation(cell, size, w, fmt.Sprintf("%s %q resolves to %q (%d variables) although %q (%d variables) also matches",
+						q.method, q.path, c, c.vars, k, k.vars))
 
-				break
+					break
+				}
 			}
 		}
 	}
+}
+
+// orderCell names the root-cause class of an order dependence from the routes
+// the request resolved to under the different orders.
+//
+//	status-differs            some order yields no route / another status
+//	same-endpoint-two-methods the outcomes are one endpoint registered for two methods (e.g. GET and ANY)
+//	trailing-slash-twins      the outcomes differ only in a trailing slash of the endpoint
+//	root-catchall             "/" is one of the outcomes
+//	equal-variables:<classes> different endpoints with the same number of variables
+//	unequal-variables:<classes> different endpoints with different numbers of variables
+//
+// ":exact" is added when one of the outcomes is spelled exactly like the
+// (normalized) request path and another is not.
+func orderCell(t []kind, outs []outcome, np string) string {
+	seen := map[outcome]bool{}
+
+	var (
+		classes   []string
+		varCount  = map[int]bool{}
+		endpoints = map[string]bool{}
+		norm      = map[string]bool{}
+		exact     int
+		inexact   int
+		noRoute   bool
+		root      bool
+	)
+
+	for _, o := range outs {
+		if seen[o] {
+			continue
+		}
+
+		seen[o] = true
+		classes = append(classes, o.class(t))
+
+		if o.route < 0 {
+			noRoute = true
+
+			continue
+		}
+
+		k := t[o.route]
+		varCount[k.vars] = true
+		endpoints[k.endpoint] = true
+
+		_, ne := normalize("", k.endpoint)
+		norm[ne] = true
+
+		if k.endpoint == np {
+			exact++
+		} else {
+			inexact++
+		}
+
+		if k.class == "root" {
+			root = true
+		}
+	}
+
+	sort.Strings(classes)
+
+	set := classes[:0:0]
+
+	for i, c := range classes {
+		if i == 0 || c != classes[i-1] {
+			set = append(set, c)
+		}
+	}
+
+	if len(set) == 1 {
+		set = append(set, set[0])
+	}
+
+	cls := strings.Join(set, "|")
+
+	var cell string
+
+	switch {
+	case noRoute:
+		cell = "order:status-differs:" + cls
+	case len(endpoints) == 1:
+		return "order:same-endpoint-two-methods"
+	case len(norm) == 1:
+		cell = "order:trailing-slash-twins"
+	case root:
+		cell = "order:root-catchall"
+	case len(varCount) == 1:
+		cell = "order:equal-variables:" + cls
+	default:
+		cell = "order:unequal-variables:" + cls
+	}
+
+	if exact > 0 && inexact > 0 {
+		cell += ":exact"
+	}
+
+	return cell
 }
 
 func names(t []kind, order []int) []string {
@@ -439,8 +513,7 @@ func names(t []kind, order []int) []string {
 // ---- generated families -------------------------------------------------------
 
 func paths(segments []string, maxSeg int) []string {
-	// the two spellings of "no segments": the empty path and "/"
-	out := []string{"", "/"}
+	out := []string{"/"}
 
 	var rec func(prefix []string)
 
@@ -594,7 +667,7 @@ func runFamily(f Family, shard, shards int) {
 				}
 			}
 
-			judge(f.Name, t, q, outs, func(i int) []string { return names(t, pp[i]) }, pr)
+			judge("", f.Name, t, q, outs, func(i int) []string { return names(t, pp[i]) }, pr)
 		}
 	}
 
@@ -671,6 +744,10 @@ func realPaths(t []kind) []string {
 	var out []string
 
 	add := func(p string) {
+		if p == "" {
+			p = "/"
+		}
+
 		for _, v := range []string{p, p + "/"} {
 			if !seen[v] {
 				seen[v] = true
@@ -722,7 +799,7 @@ func realPaths(t []kind) []string {
 		rec(0, nil)
 	}
 
-	add("")
+	add("/")
 	add("/zz")
 	sort.Strings(out)
 
@@ -789,13 +866,43 @@ func runReal(rt RealTable, shard, shards int) {
 				res.MaxCand = len(cand)
 			}
 
+			// All orders of the candidates; for a candidate set too large for that
+			// (k! orders), every choice of the first two candidates with the others
+			// ascending and descending -- a stated cut, reported as such.
+			var pp [][]int
+
 			if len(cand) > rt.MaxPerm {
-				res.Capped = append(res.Capped, fmt.Sprintf("%s: %s %s has %d possible candidates (more than %d): not permuted", rt.Name, method, p, len(cand), rt.MaxPerm))
+				res.CappedRequests[rt.Name]++
 
-				continue
+				k := len(cand)
+
+				for a := 0; a < k; a++ {
+					for b := 0; b < k; b++ {
+						if a == b {
+							continue
+						}
+
+						up := []int{a, b}
+						down := []int{a, b}
+
+						for c := 0; c < k; c++ {
+							if c != a && c != b {
+								up = append(up, c)
+							}
+						}
+
+						for c := k - 1; c >= 0; c-- {
+							if c != a && c != b {
+								down = append(down, c)
+							}
+						}
+
+						pp = append(pp, up, down)
+					}
+				}
+			} else {
+				pp = perms(len(cand))
 			}
-
-			pp := perms(len(cand))
 
 			var (
 				outs   []outcome
@@ -897,7 +1004,7 @@ func runReal(rt RealTable, shard, shards int) {
 				}
 			}
 
-			judge(rt.Name, sub, q, subOuts, candOnly, subProbe)
+			judge("server:", rt.Name, sub, q, subOuts, candOnly, subProbe)
 		}
 	}
 }
@@ -909,6 +1016,14 @@ func candNames(t []kind, cand []int) []string {
 	}
 
 	return out
+}
+
+func replayPrefix(family string) string {
+	if strings.HasPrefix(family, "server") {
+		return "server:"
+	}
+
+	return ""
 }
 
 // replay re-runs one witness: its table, every order, that one request.
@@ -948,7 +1063,7 @@ func replay(w Witness) {
 	res.Requests++
 	res.Tables++
 
-	judge(w.Family, t, q, outs, func(i int) []string { return names(t, pp[i]) }, probe)
+	judge(replayPrefix(w.Family), w.Family, t, q, outs, func(i int) []string { return names(t, pp[i]) }, probe)
 }
 
 func main() {
@@ -975,12 +1090,31 @@ func main() {
 		return
 	}
 
+	debug := os.Getenv("VERIF_C32_DEBUG") != ""
+
+	if pf := os.Getenv("VERIF_C32_PROF"); pf != "" {
+		if f, err := os.Create(pf); err == nil {
+			_ = pprof.StartCPUProfile(f)
+
+			defer pprof.StopCPUProfile()
+		}
+	}
+	t0 := time.Now()
+
 	for _, f := range cfg.Families {
 		runFamily(f, cfg.Shard, cfg.Shards)
+
+		if debug {
+			fmt.Fprintf(os.Stderr, "c32 worker %d: family %s done at %.1fs, evals %d\n", cfg.Shard, f.Name, time.Since(t0).Seconds(), res.Evals)
+		}
 	}
 
 	for _, rt := range cfg.Real {
 		runReal(rt, cfg.Shard, cfg.Shards)
+
+		if debug {
+			fmt.Fprintf(os.Stderr, "c32 worker %d: table %s done at %.1fs, evals %d probes %d\n", cfg.Shard, rt.Name, time.Since(t0).Seconds(), res.Evals, res.Probes)
+		}
 	}
 
 	writeResult()
